@@ -22,6 +22,9 @@ CLAIMS = {
  "C13": ("Publish machine at publish-point granularity; C13_statement proved for all traces, all completion orders and all diagnostics functions on the guarded machine (the code after the fix commit); the unguarded machine is refuted. The tie enumerates every release permutation of bursts of 2..4 changes on two documents and random interleaved traces through a publish-point hook.",
          "Trusted: Coq kernel+VM; the hook; serialisation by publishMu read from the code; Go scheduler/memory model not modelled (orders finer than the publish point).",
          "Coq invariant proof over all traces + exhaustive small-burst schedule enumeration against the implementation", "5 C13"),
+ "C15": ("Map-iteration orders are permutations in the model; theorems: any output produced by sorting with a strict total order is independent of the iteration order (generic), instantiated for the UNBALANCED message (commodities sorted), workspace symbols (URI order) and completion ranking (score, count, label); the pre-fix comparator is refuted. Three nondeterminism defects found by the check were repaired (fix commits). Every run repeats every response of generated multi-file workspaces on 24 fresh servers and 2 fresh processes and requires a single answer class.",
+         "Trusted: Coq kernel+VM; repetition is search, not proof, for the Go code (map order cannot be controlled); theorems cover the sorting steps only.",
+         "Coq order-independence proofs + repetition oracle (in-process and fresh processes)", "5 C15"),
  "C17": ("Semantic-token transport modelled (uint32 delta encoding, range filter, edit computation, process-global result cache); C17_delta proved for every tokenizer and every history with deltas quoting current, stale, foreign or unknown ids; C17_range/decode-encode proved for all position-sorted token lists. Every run replays request histories on up to 3 documents against the implementation, reconstructs the client's array from its answers and checks token geometry (order, overlap, inside line, legend, non-zero length) with line lengths in UTF-16 units.",
          "Trusted: Coq kernel+VM; the tokenizer is a parameter at this level (lexeme-exact coverage of each token kind is not yet modelled: geometry is checked on the implementation's output only); known finding nonascii_columns_and_lengths; zero-length tokens were repaired.",
          "Coq invariant proof over all request histories + client-reconstruction oracle on the implementation", "5 C17"),
